@@ -144,7 +144,9 @@ struct Ctx<'a> {
 }
 
 impl<'a> Ctx<'a> {
-	/// One accessor call in a window. `f` returns up to 8 slices (as address
+	/// One accessor call in a window. `ordered` is set only for the five components of a
+	/// URI/IRI (reference), the one place where C20 states an order ("lying inside it in that
+	/// order and without overlap"); which sub-slice an authority part or a segment is, is C03/C12. `f` returns up to 8 slices (as address
 	/// pairs, on the stack - the harness itself must not allocate in here).
 	fn acc(&mut self, name: &str, consts: &[&[u8]], ordered: bool, f: impl FnOnce() -> ([Option<Sl>; 8], usize)) -> Result<(), Violation> {
 		if let Some(o) = self.only {
@@ -268,7 +270,7 @@ macro_rules! ri_accessors {
 			(o, 1)
 		})?;
 		// authority and path sub-accessors through the value
-		cx.acc("authority.parts", &[], true, || {
+		cx.acc("authority.parts", &[], false, || {
 			let mut o = none8();
 			if let Some(a) = v.authority() {
 				let p = a.parts();
@@ -278,7 +280,7 @@ macro_rules! ri_accessors {
 			}
 			(o, 3)
 		})?;
-		cx.acc("path.segments", &[], true, || {
+		cx.acc("path.segments", &[], false, || {
 			let mut o = none8();
 			for (i, s) in v.path().segments().enumerate() {
 				if i < 8 {
@@ -309,7 +311,7 @@ macro_rules! authority_accessors {
 			o[0] = a.port().map(|s| sl(s.as_bytes()));
 			(o, 1)
 		})?;
-		cx.acc("parts", &[], true, || {
+		cx.acc("parts", &[], false, || {
 			let mut o = none8();
 			let p = a.parts();
 			o[0] = p.user_info.map(|s| sl(s.as_bytes()));
@@ -324,7 +326,7 @@ macro_rules! path_accessors {
 	($cx:expr, $p:expr) => {{
 		let p = $p;
 		let cx: &mut Ctx = $cx;
-		cx.acc("segments", &[], true, || {
+		cx.acc("segments", &[], false, || {
 			let mut o = none8();
 			let mut n = 0usize;
 			for s in p.segments() {
